@@ -363,12 +363,12 @@ def run(ctx):
     if (tie_broken and not found) or not ctx.quick():
         # targeted search for a failing input (DESIGN "On break"): every single-change history of the grammar
         run_converge(ctx, 0, sweep=True)
-    if not proved and not ctx.violations:
-        # a proof (e.g. a table tie) broke while the stream still agrees: property-level search
-        g = os.path.join(ctx.work, "needs.gen.ops")
-        if os.path.exists(g):
-            for f in oracle_file(ctx, "needs", g):
-                ctx.violation(f[0], f[1], f[2], True)
+    # the property-level oracle (order independence, monotonicity in keys and under merging, Forced) runs on every generated
+    # case as a second line, independently of the model
+    g = os.path.join(ctx.work, "needs.gen.ops")
+    if os.path.exists(g):
+        for f in oracle_file(ctx, "needs", g, limit=3):
+            ctx.violation(f[0], f[1], f[2], True)
 
 
 def replay(ctx, path):
